@@ -158,6 +158,8 @@ class Case:
         }
         if self.leafsyn is not None:
             ls = dict(self.leafsyn)
+            if self.desc.get("synstr") and all(len(g) == 1 for v in ls.values() for g in v):
+                ls = {k: "".join(v) for k, v in ls.items()}      # one character per family, the form the package's own tests use
             if self.rootsyn is not None:
                 ls[self.O.name[0]] = self.rootsyn
             d["leaf_syntenies"] = ls
